@@ -15,23 +15,30 @@ Theorem C13_at_most_one :
 Proof. exact at_most_one. Qed.
 Print Assumptions C13_at_most_one.
 
-(* Exactly one: after any sequence of stimuli, if nothing is owed any more (no request waits for a
-   dial, no request is active at any peer), every request id that send_request handed out has
-   exactly one terminal event, unless the user asked to cancel it.
-   PARTIAL with respect to the design's statement: the premise is "settled" (pending_dials and all
-   peers[..].active empty) rather than "quiescent" (pending_dials, pending_outbound and the set of
-   in-flight futures empty). The missing link — an active request always has a pending_outbound
-   entry or a future — is not proved; it is checked on every dump of the real bookkeeping by
-   Glue.prop_ok. Full statement:
-     quiescent (fst (fst res)) -> In (OSent r) (snd res) -> terms r (snd res) = 1 \/ In r (cancel_reqs evs). *)
-Theorem C13_exactly_one_settled_partial :
+(* Exactly one: after any sequence of stimuli, once nothing is outstanding (no pending dial, no
+   substream being opened, no request future in flight), every request id that send_request handed
+   out has exactly one terminal event, unless the user asked to cancel it.  The ledger behind it:
+   an accepted, unanswered, uncancelled id waits for a dial or is active at a peer, and an id that
+   is active at a peer has a pending_outbound entry or an in-flight future. *)
+Theorem C13_exactly_one :
+  forall (cf : cfg) (evs : list ev) (r : N),
+    let res := run cf (init_pst, init_env) evs in
+    quiescent (fst (fst res)) ->
+    In (OSent r) (snd res) ->
+    terms r (snd res) = 1%nat \/ In r (cancel_reqs evs).
+Proof. exact exactly_one. Qed.
+Print Assumptions C13_exactly_one.
+
+(* The same under the weaker-looking premise "nothing is owed" (pending_dials and every
+   peers[..].active empty); quiescent implies settled (Proofs.quiescent_settled). *)
+Theorem C13_exactly_one_settled :
   forall (cf : cfg) (evs : list ev) (r : N),
     let res := run cf (init_pst, init_env) evs in
     settled (fst (fst res)) ->
     In (OSent r) (snd res) ->
     terms r (snd res) = 1%nat \/ In r (cancel_reqs evs).
 Proof. exact exactly_one_settled. Qed.
-Print Assumptions C13_exactly_one_settled_partial.
+Print Assumptions C13_exactly_one_settled.
 
 (* The configured bound on concurrent inbound requests (substreams being read + requests waiting
    for / sending their response) holds after every sequence of stimuli. *)
@@ -43,6 +50,49 @@ Theorem C13_inbound_bound :
     end.
 Proof. exact inbound_bound. Qed.
 Print Assumptions C13_inbound_bound.
+
+(* run_steps is the same run, recorded stimulus by stimulus. *)
+Theorem C13_steps_flatten :
+  forall (cf : cfg) (evs : list ev),
+    snd (run cf (init_pst, init_env) evs) = outs_of (run_steps cf (init_pst, init_env) evs).
+Proof. intros. apply run_outs. Qed.
+Print Assumptions C13_steps_flatten.
+
+(* Payload pairing, no cross-talk.  OBind c rid is the (unprinted) record that
+   on_outbound_substream handed carrier c to the future of request rid.  If some stimulus makes
+   the model deliver ResponseReceived rid (len, tag), then that stimulus is the remote side
+   answering (len, tag) on a carrier c that had been handed to rid before; c is never handed to
+   any other request, and rid is never handed any other carrier, in the whole run. *)
+Theorem C13_payload :
+  forall (cf : cfg) (evs : list ev) pre e o tg post (rid len tag : N),
+    run_steps cf (init_pst, init_env) evs = pre ++ (e, o, tg) :: post ->
+    In (OResp rid len tag) o ->
+    exists k c,
+      e = ERespond k len tag /\ tg = Some c /\
+      In (OBind c rid) (outs_of pre) /\
+      (forall rid', In (OBind c rid') (outs_of (run_steps cf (init_pst, init_env) evs)) -> rid' = rid) /\
+      (forall c', In (OBind c' rid) (outs_of (run_steps cf (init_pst, init_env) evs)) -> c' = c).
+Proof.
+  intros cf evs pre e o tg post rid len tag E H.
+  destruct (payload_pairing cf evs pre e o tg post rid len tag E H) as [k [c [A [B [C D]]]]].
+  exists k, c. repeat split; auto.
+  intros c' H'. apply (bind_injective cf evs c' c rid H').
+  rewrite E. unfold outs_of. rewrite flat_map_app. apply in_or_app. left. exact C.
+Qed.
+Print Assumptions C13_payload.
+
+(* The responder sees each inbound substream once: a stimulus that yields a RequestReceived is an
+   inbound request frame (len, tag) arriving on a carrier, it yields exactly that one event with
+   exactly those bytes, and no two such stimuli of a run are on the same carrier. *)
+Theorem C13_responder_once :
+  forall (cf : cfg) (evs : list ev),
+    let steps := run_steps cf (init_pst, init_env) evs in
+    NoDup (req_chans steps) /\
+    forall e o tg irid p len tag,
+      In (e, o, tg) steps -> In (OReq irid p len tag) o ->
+      exists k c, e = EInReq k len tag /\ tg = Some c /\ o = [OReq irid p len tag].
+Proof. exact responder_once. Qed.
+Print Assumptions C13_responder_once.
 
 (* F-C13a on the unrepaired handler: two requests to peer 0 while it is being dialed, then the
    connection is established. Request 0 was handed out, is owed nowhere, was never answered and
@@ -57,13 +107,15 @@ Proof. eexists. eexists. split; [vm_compute; reflexivity|]. vm_compute. repeat s
 Print Assumptions C13_unrepaired_refuted.
 
 (* Non-vacuity: the same scenario on the model proper (repaired handler) opens a substream for
-   both requests, both get their own response, and the run ends settled. *)
+   both requests, both get their own response — supplied in the opposite order, each on its own
+   carrier — and the run ends quiescent. *)
 Definition demo : list ev :=
   [ESend 0 true 3 10; ESend 0 true 2 20; EEstablished 0 false; EOpened 0 1; EOpened 0 1;
-   ERespond 0 2 7; ERespond 1 3 9].
+   ERespond 1 3 9; ERespond 0 2 7; EInOpen 0 1; EInReq 2 4 5].
 Example demo_two_responses :
   let res := run (mkCfg None 4 16 5000) (init_pst, init_env) demo in
-  filter (fun x => match x with OResp _ _ _ => true | _ => false end) (snd res)
-    = [OResp 0 2 7; OResp 1 3 9] /\
-  dials (fst (fst res)) = [] /\ active (fst (fst res)) = [].
+  filter (fun x => match x with OResp _ _ _ | OBind _ _ | OReq _ _ _ _ => true | _ => false end) (snd res)
+    = [OBind 0 0; OBind 1 1; OResp 1 3 9; OResp 0 2 7; OReq 2 0 4 5] /\
+  dials (fst (fst res)) = [] /\ pouts (fst (fst res)) = [] /\ futs (fst (fst res)) = [] /\
+  req_chans (run_steps (mkCfg None 4 16 5000) (init_pst, init_env) demo) = [2].
 Proof. vm_compute. repeat split. Qed.
